@@ -36,7 +36,7 @@ EfgFaults(doc) ==
      ELSE IF doc.players # 2 THEN {"players"}
      \* a name clash leaves the document without a meaning: the other rules are not evaluated on it
      ELSE IF NumberClash(doc) THEN {"duplicate-infosets"}
-     ELSE IF GivenClash(doc) THEN {"duplicate-infosets", "game-error"}
+     ELSE IF GivenClash(doc) THEN {"duplicate-infosets"}
      ELSE (IF ~WithinTolerance(doc) THEN {"constant-sum"} ELSE {})
           \cup (IF ViolatedRules(Conv(doc, doc.root, <<0, 0>>, 0)) # {} THEN {"game-error"} ELSE {})
 
